@@ -260,6 +260,35 @@ func mutants(base *ref.Program, limit int) []mutant {
 				return true
 			})
 		}
+		for k, fn := range []string{"index", "isFirst", "isLast"} {
+			fn := fn
+			if (bi+k)%3 != 0 {
+				continue // (one of the three per block)
+			}
+			add(fn+"() of a param (no loop binds its position)", func(p *ref.Program) bool {
+				tm, b, _ := nthBlock(p, bi)
+				if len(tm.Params) == 0 {
+					return false
+				}
+				name := tm.Params[len(tm.Params)-1].Name
+				insertAt(b, len(*b), ref.Cmd{K: "print", Expr: call1("isNonnull", call1(fn, &ref.Expr{Op: "ref", Name: name}))})
+				return true
+			})
+			add(fn+"() of a let", func(p *ref.Program) bool {
+				_, b, _ := nthBlock(p, bi)
+				insertAt(b, len(*b), ref.Cmd{K: "let", Var: "zzPos", Expr: &ref.Expr{Op: "int", I: 1}}, ref.Cmd{K: "print", Expr: call1("isNonnull", call1(fn, &ref.Expr{Op: "ref", Name: "zzPos"}))})
+				return true
+			})
+			add("valid: "+fn+"() of a loop variable, also where a let of that name hides the variable", func(p *ref.Program) bool {
+				_, b, _ := nthBlock(p, bi)
+				lv := &ref.Expr{Op: "ref", Name: "zzLoop"}
+				insertAt(b, len(*b), ref.Cmd{K: "for", Style: 1, Var: "zzLoop", Expr: &ref.Expr{Op: "list", Args: []*ref.Expr{{Op: "int", I: 1}, {Op: "int", I: 2}}}, Body: []ref.Cmd{
+					{K: "print", Expr: call1("isNonnull", call1(fn, lv))}, {K: "print", Expr: lv},
+					{K: "if", Branches: []ref.Branch{{Cond: &ref.Expr{Op: "bool", B: true}, Body: []ref.Cmd{
+						{K: "let", Var: "zzLoop", Expr: &ref.Expr{Op: "int", I: 7}}, {K: "print", Expr: lv}, {K: "print", Expr: call1("isNonnull", call1(fn, lv))}}}}}}})
+				return true
+			})
+		}
 		add("undeclared variable", func(p *ref.Program) bool {
 			_, b, _ := nthBlock(p, bi)
 			insertAt(b, len(*b), printVar("zzUndeclared"))
